@@ -758,10 +758,12 @@ def check_C13(report, tier, seed, replay=None):
         factory_jobs = factory_checks.c13_jobs
     except Exception:
         factory_jobs = None
+    import factory_impl as FI
     n = 60 if tier == "quick" else 1500
     for h in range(n):
         reused = Parser()
         hist = []
+        kept = []          # (parser object, text) of accepted parses by parsers that are not used again
         for k in range(rng.randrange(4, 13)):
             toks, needs = G.gen_script(rng, avoid_optpos=(k % 3 != 0), ncmds=rng.randrange(1, 4))
             r = rng.random()
@@ -780,7 +782,17 @@ def check_C13(report, tier, seed, replay=None):
                 text = G.render(mts[0][2]) if mts else G.render(toks)
             else:
                 text = G.render(toks)
-            parser = reused if rng.random() < 0.7 else Parser()
+            # marker comments before the first command, comments left pending at the end, scripts cut right
+            # after their header: whatever a parse leaves behind must not reach the next one
+            c = rng.random()
+            if c < 0.35:
+                text = ("# Filter: f%d\n# Description: d %d\n" % (k, h)).encode() + text
+            if 0.25 < c < 0.5:
+                text = text + ("\n# trailing %d" % k).encode() + rng.choice([b"", b"\n"])
+            if 0.3 < c < 0.4:
+                text = text[:rng.randrange(0, 40)]
+            fresh = rng.random() >= 0.7
+            parser = Parser() if fresh else reused
             got = observed(parser, text)
             want = pristine.ask("P " + hx(text))
             mod = drv.ask("parse " + hx(text))
@@ -796,6 +808,20 @@ def check_C13(report, tier, seed, replay=None):
                                  % (k, text, [g[:120] for g in got], [w[:120] for w in want]),
                                  {"property": "C13", "history": [hx(x) for x in hist]})
                 break
+            if fresh and got[0].startswith("accept"):
+                kept.append((parser, text, k))
+            if kept and rng.random() < 0.35:
+                # load a filter set from an EARLIER accepted parse, after other parses have happened since
+                pk, tk, kk = kept[rng.randrange(len(kept))]
+                gl = FI.load_summary(pk)
+                wl = pristine.ask("L " + hx(tk))
+                report.case((h, k, "load", tk), k > kk)
+                report.count("loads-after-%s-later-parses" % ("0" if k == kk else "some"))
+                if gl != wl:
+                    report.violation("FiltersSet.from_parser_result depends on what was parsed in between: script %r parsed at step %d, "
+                                     "loaded after step %d gives %r, loading it at once in a pristine interpreter gives %r"
+                                     % (tk, kk, k, gl, wl), {"property": "C13", "history": [hx(x) for x in hist], "loaded": hx(tk)})
+                    break
             if factory_jobs is not None and rng.random() < 0.4:
                 factory_jobs(report, rng, pristine, hist)
     pristine.close()
@@ -972,6 +998,14 @@ def check_C20(report, tier, seed, replay=None):
     ndefs = 40 if tier == "quick" else 600
     for idx in range(ndefs):
         d = gen_definition(rng, idx)
+        if idx >= 3 and rng.random() < 0.3:
+            # register again under a name that was already registered AND used, with a different definition:
+            # add_commands replaces the class, so the new definition alone decides
+            old = rng.randrange(0, idx)
+            d["cls"], d["ident"] = "Xc%dCommand" % old, "xc%d" % old
+            if d["ext"]:
+                d["ext"] = "xext%d" % old
+            report.count("re-registered")
         register(d)
         drv.ask(def_line(d))
         nopts = sum(1 for a in d["args"] if not a.get("required"))
